@@ -1692,6 +1692,8 @@ class Tensor:
         # In Tensor._op, any tensor entering an op has its grad/view-info cleared
         # We must do this here up front since we need to consume information
         # about ``self``
+        _base_on_entry = self._base
+        _dropped_from = []  # (view-parent, its view-children) if `self` gets unregistered
         self.null_grad(_clear_view_info=True)
         if self._base is not None and not _is_view_descendant(self._base, self):
             # `self` is no longer among the tracked views of its base (the base's
@@ -1700,6 +1702,7 @@ class Tensor:
             if self._creator is not None:
                 # its former view-parent must not re-create it as a view later
                 for parent in self._creator.variables:
+                    _dropped_from.append((parent, parent._view_children))
                     parent._view_children = WeakRefIterable(
                         [c for c in parent._view_children if c is not self]
                     )
@@ -1758,6 +1761,10 @@ class Tensor:
                 )
         except Exception as e:
             graph.restore_old_graph()
+            # a failed update leaves the view relationships of `self` as they were
+            self._base = _base_on_entry
+            for parent, children in _dropped_from:
+                parent._view_children = children
             raise e
 
         placeholder_mutant_view._constant = inplace_target._constant
